@@ -53,6 +53,8 @@ def parse_q(s):
 NUMS = ["1", "2", "3", "5", "7", "10", "12", "0", "2.5", "0.25", "1.5", "4.0", "1e3", "1.5e-2", "-2", "-3.5",
         "100", "6.25", "+4", "1E2", "08"]
 POS_NUMS = ["1", "2", "3", "5", "10", "2.5", "0.25", "1e3", "100", "1E2", "1.5e-2"]
+# small magnitudes (thermal energies, tiny volumes): the accuracy of an expansion is judged relative to the value
+SMALL_NUMS = ["2e-13", "5e-13", "1e-11", "3.5e-9", "1e-5", "2e-5", "4.5e-7", "1.25e-4", "6e-10", "7.5e-12"]
 
 
 def gen_count(rng, wide):
@@ -80,11 +82,12 @@ def gen_shortcut(rng, allow_m, wide, after_jump=False):
     if r < 0.38:
         return [{"k": "r", "t": gen_count(rng, wide) + cased(rng, "r")}]
     if r < 0.70:
-        return [{"k": "i", "t": gen_count(rng, wide) + cased(rng, "i")},
-                {"k": "n", "t": rng.choice([x for x in NUMS if Fraction(spec.read_number(x)) != 0])}]
+        pool = SMALL_NUMS if rng.random() < 0.2 else [x for x in NUMS if Fraction(spec.read_number(x)) != 0]
+        return [{"k": "i", "t": gen_count(rng, wide) + cased(rng, "i")}, {"k": "n", "t": rng.choice(pool)}]
     if r < 0.80:
         w = rng.choice(["ilog", "log", "ILOG", "LOG"])
-        return [{"k": "l", "t": gen_count(rng, wide) + w}, {"k": "n", "t": rng.choice(POS_NUMS)}]
+        return [{"k": "l", "t": gen_count(rng, wide) + w},
+                {"k": "n", "t": rng.choice(SMALL_NUMS if rng.random() < 0.25 else POS_NUMS)}]
     if allow_m:
         return [{"k": "m", "t": rng.choice(["2", "3", "-2", "10", "4"]) + cased(rng, "m")}]
     return [{"k": "r", "t": gen_count(rng, wide) + cased(rng, "r")}]
@@ -108,8 +111,8 @@ def gen_tokens(rng, allow_m=True, wide=False, errors=0.04, max_groups=6):
             continue
         sc = gen_shortcut(rng, allow_m, wide)
         start = rng.choice(POS_NUMS if sc[0]["k"] == "l" else NUMS)
-        if sc[0]["k"] == "l":
-            sc[1]["t"] = rng.choice(POS_NUMS)
+        if sc[0]["k"] in ("i", "l") and (sc[1]["t"] in SMALL_NUMS or rng.random() < 0.1):
+            start = rng.choice(SMALL_NUMS)               # both ends small, or a small start
         toks.append({"k": "n", "t": start})
         toks += sc
         if rng.random() < 0.22:                               # a second, chained shortcut
@@ -437,6 +440,32 @@ def post_bits(s, leading=None):
     return ("1" if ld else "0") + ":" + ("1" if mo else "0")
 
 
+BOUNDARY = set()      # requests whose binary64 decision in _describes_its_values differs from the exact one
+
+
+def float_boundary(s, leading=None):
+    """nI over ends of very different magnitude (4 ... 1e-11): begin + spacing * i cancels in binary64 and
+    _describes_its_values (rel_tol 1e-9) answers differently from exact arithmetic.  The model works over exact
+    rationals: such a case is outside the correspondence (the oracle still judges the written text)."""
+    if node_kind(s) != "I":
+        return False
+    try:
+        nodes = list(s.nodes)
+        if leading is not None and len(leading.nodes) > 0:
+            nodes.insert(0, leading.nodes[-1])
+        vals = [n.value for n in nodes]
+        if len(vals) < 3 or any(v is None for v in vals):
+            return False
+        fv = [Fraction(v) for v in vals]
+        sp = (fv[-1] - fv[0]) / (len(fv) - 1)
+        tol = Fraction(1, 10 ** 9)
+        exact = all(v == e or abs(v - e) <= tol * max(abs(v), abs(e))
+                    for v, e in ((v, fv[0] + sp * i) for i, v in enumerate(fv)))
+        return bool(s._describes_its_values(leading)) != exact
+    except Exception:
+        return False
+
+
 def dump_sc(ids, s, new, bits="1:1"):
     k = node_kind(s)
     orig = s._original
@@ -481,7 +510,10 @@ class UpdRequest:
 
     def text(self):
         scs = "|".join(p.replace("@", post_bits(s)) for p, s in zip(self.pre, self.shorts)) or "-"
-        return f"upd {scs} {self.leaves} {self.fresh}"
+        t = f"upd {scs} {self.leaves} {self.fresh}"
+        if any(float_boundary(s) for s in self.shorts):
+            BOUNDARY.add(t)
+        return t
 
 
 def upd_request(ids, ln, new):
@@ -511,7 +543,15 @@ def fmt_request(ids, ln):
             scd.append(dump_sc(ids, s, [], bits=post_bits(s, lead)))
         prev = s
     scs = "|".join(scd) or "-"
-    return f"fmt {scs} {leaves} {';'.join(order) or '-'}"
+    t = f"fmt {scs} {leaves} {';'.join(order) or '-'}"
+    prev = None
+    for s in ln.nodes:
+        if isinstance(s, sn.ShortcutNode):
+            lead = prev if (isinstance(prev, sn.ShortcutNode) and s._shares_edge) else None
+            if float_boundary(s, lead):
+                BOUNDARY.add(t)
+        prev = s
+    return t
 
 
 def real_structure(ids, ln, fresh):
@@ -607,6 +647,8 @@ def observe_update(ln, new, ids=None):
 
 def compare_update(ob, ans):
     """-> None or a description of the disagreement between the model answer and the observation"""
+    if ob.request in BOUNDARY:
+        return None
     w = ans.split(" ")
     if w[0].startswith("err:") or (len(w) >= 3 and w[2].startswith("err:")):
         merr = w[0] if w[0].startswith("err:") else w[2]
@@ -729,6 +771,15 @@ def apply_edits(new, eds):
             if e[1] >= len(new):
                 return False
             new[e[1]].value = None
+        elif op == "restore":
+            # put back the value the node was read (or made) with
+            if e[1] >= len(new):
+                return False
+            new[e[1]].value = new[e[1]]._og_value
+        elif op == "restoreall":
+            for n in new:
+                if n.value is None or n._og_value is not None:
+                    n.value = n._og_value
         elif op == "move":
             if e[1] >= len(new) or e[2] >= len(new):
                 return False
@@ -750,9 +801,16 @@ def gen_bare_case(rng, wide=False):
     rounds = []
     if ln is not None and all(n is not None for n in ln.nodes):
         n = len(list(ln))
-        for _ in range(rng.choice([1, 1, 1, 2, 3])):
-            eds, n = gen_edits(rng, n, heavy=rng.random() < 0.15)
-            rounds.append(eds)
+        if n and rng.random() < 0.22:
+            # take values away (or change them), write, put the original values back (all, or all but one)
+            ps = sorted(rng.sample(range(n), min(n, rng.choice([1, 1, 2, 3]))))
+            first = [["none", p] if rng.random() < 0.6 else ["set", p, rng.choice(EDIT_VALUES)] for p in ps]
+            back = [["restore", p] for p in (ps if rng.random() < 0.6 else ps[:-1])]
+            rounds = [first] + ([[]] if rng.random() < 0.3 else []) + [back if rng.random() < 0.8 else [["restoreall"]]]
+        else:
+            for _ in range(rng.choice([1, 1, 1, 2, 3])):
+                eds, n = gen_edits(rng, n, heavy=rng.random() < 0.15)
+                rounds.append(eds)
     return {"which": which, "toks": toks, "seps": seps, "rounds": rounds}
 
 
@@ -779,7 +837,9 @@ def run_bare_case(case):
         t0 = copy.deepcopy(ln).format()
         snap0 = snapshot(ids)
 
-        def cmp0(ans, t0=t0, numnodes=numnodes, snap0=snap0):
+        def cmp0(ans, t0=t0, numnodes=numnodes, snap0=snap0, req0=req0):
+            if req0 in BOUNDARY:
+                return None
             w = ans.split(" ")
             if w[0] != "ok" or len(w) < 4:
                 return {"round": -1, "what": "fmt answer", "model": ans[:200], "real": t0}
@@ -894,8 +954,8 @@ def shrink_bare(case, kind):
         for ri in range(len(cur["rounds"])):
             for ei, e in enumerate(cur["rounds"][ri]):
                 for pi in (1, 2):
-                    if pi < len(e) and isinstance(e[pi], int) and not isinstance(e[pi], bool) and e[pi] > 0 and e[0] != "set" or \
-                            (pi == 1 and isinstance(e[pi], int) and e[pi] > 0):
+                    if pi < len(e) and isinstance(e[pi], int) and not isinstance(e[pi], bool) and e[pi] > 0 and \
+                            (e[0] != "set" or pi == 1):
                         c = copy.deepcopy(cur)
                         c["rounds"][ri][ei][pi] -= 1
                         if bad(c):
@@ -936,6 +996,8 @@ def gen_card_tokens(rng, carrier, n, wide=False):
     """tokens of a data-block card that expands to exactly n entries"""
     if carrier == "vol":
         nums, jumps, interp = ["1", "2", "2.5", "5", "10", "0.25", "7", "1e3", "12"], True, True
+        if rng.random() < 0.25:
+            nums = nums + ["2e-13", "5e-13", "1e-11", "1e-5", "2e-5", "4.5e-7"]
     elif carrier == "imp":
         nums, jumps, interp = ["1", "2", "4", "0.5", "8", "0"], False, True
     elif carrier == "u":
@@ -1003,7 +1065,19 @@ def gen_carrier_case(rng, wide=False):
             m += 1
         else:
             ops.append(["reorder", rng.randrange(m)])
-    return {"n": n, "cards": cards, "ops": ops, "writes": rng.choice([1, 1, 2])}
+    case = {"n": n, "cards": cards, "ops": ops, "writes": rng.choice([1, 1, 2])}
+    hist = [c for c in ("vol", "u") if c in cards]
+    if hist and rng.random() < 0.3:
+        # a history: entries become jumps, the file is written, the original values come back, it is written again
+        c = rng.choice(hist)
+        want = spec.expand_shortcuts(spec.tokens(text_of(cards[c])))
+        pos = [i for i, x in enumerate(want) if isinstance(x, Fraction) and x > 0]
+        if pos:
+            ps = sorted(rng.sample(pos, min(len(pos), rng.choice([1, 1, 2]))))
+            case["ops"] = [["unset", c, i] for i in ps]
+            case["ops2"] = [["restore", c, i] for i in (ps if rng.random() < 0.7 else ps[:1])]
+            case["writes"] = 1
+    return case
 
 
 def carrier_text(case):
@@ -1071,11 +1145,35 @@ def card_matches(carrier, toks, values):
     return spec_matches(sv, normalise_default(carrier, values), allow_trailing=True)
 
 
-def apply_ops(pr, case):
+def apply_ops(pr, ops, orig=None):
     import montepy
-    for op in case["ops"]:
+    for op in ops:
         cells = list(pr.cells)
-        if op[0] == "set":
+        if op[0] == "unset":
+            # the entry becomes a jump
+            _, c, i = op
+            if i >= len(cells):
+                return False
+            if c == "vol":
+                del cells[i].volume
+            elif c == "u":
+                cells[i].universe = [u for u in pr.universes if u.number == 0][0]
+            else:
+                return False
+        elif op[0] == "restore":
+            # the value the cell had when the file was read
+            _, c, i = op
+            if i >= len(cells) or orig is None or orig[c][i] is None:
+                return False
+            if c == "vol":
+                cells[i].volume = orig[c][i]
+            elif c == "u":
+                if orig[c][i] < 0:
+                    return False
+                cells[i].universe = [u for u in pr.universes if u.number == orig[c][i]][0]
+            else:
+                return False
+        elif op[0] == "set":
             _, c, i, v = op
             if i >= len(cells):
                 return False
@@ -1198,10 +1296,13 @@ def run_carrier_case(case):
         if k:
             res["fail"] = {"kind": "misread:" + k, "stage": "read", "carrier": c, "values": [str(v) for v in vals]}
             return res
+    orig = {c: api_values(pr, c) for c in case["cards"]}
+    phases = [case["ops"]] + ([case["ops2"]] if case.get("ops2") else [])
     with warnings.catch_warnings():
-        warnings.simplefilter("ignore")
+      warnings.simplefilter("ignore")
+      for phase, ops in enumerate(phases):
         try:
-            if not apply_ops(pr, case):
+            if not apply_ops(pr, ops, orig):
                 res["skipped"] = "op does not apply"
                 return res
         except Exception as e:
@@ -1241,7 +1342,7 @@ def run_carrier_case(case):
                     continue
                 k = card_matches(c, toks, vals)
                 if k:
-                    res["fail"] = {"kind": k, "stage": "write", "carrier": c, "write": wi,
+                    res["fail"] = {"kind": k, "stage": "write", "carrier": c, "write": wi, "phase": phase,
                                    "text": " ".join(toks), "values": [str(v) for v in vals]}
                     return res
     return res
@@ -1637,6 +1738,10 @@ def sweep_cases(rng, wide=False):
             ops += [["set", p, v], ["del", p], ["none", p]]
         for op in ops:
             out.append({"which": which, "toks": toks, "seps": seps, "rounds": [[op]]})
+        if p < n:
+            # ... and the same value taken away / changed, written, and put back
+            out.append({"which": which, "toks": toks, "seps": seps, "rounds": [[["none", p]], [["restore", p]]]})
+            out.append({"which": which, "toks": toks, "seps": seps, "rounds": [[["set", p, v]], [["restore", p]]]})
     return out
 
 
@@ -1770,8 +1875,8 @@ def replay(ctx, path):
 def run(ctx):
     quick = ctx.tier == "quick"
     n_exp = 700 if quick else 8000
-    n_bare = 800 if quick else 14000
-    n_sweep = 22 if quick else 250
+    n_bare = 620 if quick else 14000
+    n_sweep = 18 if quick else 250
     n_carrier = 150 if quick else 1900
     n_read = 500 if quick else 6000
     n_direct = 120 if quick else 1400
